@@ -43,6 +43,21 @@ Theorem C13_plain_parameter :
 Proof. exact param_plain. Qed.
 Print Assumptions C13_plain_parameter.
 
+(** $name inside arithmetic (an ordinary variable): the name itself is handed to Eval, which reads
+    the variable when it needs it; with nounset an unset variable is an error here too. *)
+Theorem C13_parameter_in_arithmetic :
+  forall users fuel e fs name word mode,
+    beqb name s_at = false -> beqb name s_star = false -> mbit mode mArith = true ->
+    is_sp_param name || is_pos_param name = false ->
+    expand_param users (S fuel) e fs name [] word mode =
+    match pstate_of e name with
+    | PUnset => if opt_bit e Extracted.opt_NoUnset then Err (e, XParam name msg_unset)
+                else Ok (e, join_last fs name (mbit mode mQuote))
+    | _ => Ok (e, join_last fs name (mbit mode mQuote))
+    end.
+Proof. exact param_in_arithmetic. Qed.
+Print Assumptions C13_parameter_in_arithmetic.
+
 (** ${#p} counts characters (runes, not bytes); 0 for a null or unset parameter, an error for an
     unset one under nounset. *)
 Theorem C13_length :
